@@ -147,6 +147,15 @@ class AsyncTransition(Transition):
         await dest.enter(event_data)
         if dest.final:
             await event_data.machine.callbacks(event_data.machine.on_final, event_data)
+        self._style_active(event_data)
+
+    @staticmethod
+    def _style_active(event_data):
+        # counterpart of TransitionGraphSupport._change_state: the state the model is in after the change is the
+        # active one (the graph might have been replaced while the callbacks ran)
+        if hasattr(event_data.machine, "model_graphs"):
+            graph = event_data.machine.model_graphs[id(event_data.model)]
+            graph.set_node_style(getattr(event_data.model, event_data.machine.model_attribute), "active")
 
 
 class NestedAsyncTransition(AsyncTransition, NestedTransition):
@@ -166,6 +175,7 @@ class NestedAsyncTransition(AsyncTransition, NestedTransition):
             on_final_cbs, _ = self._final_check(event_data, state_tree, enter_partials)
             for on_final_cb in on_final_cbs:
                 await on_final_cb()
+        self._style_active(event_data)
 
 
 class AsyncEventData(EventData):
